@@ -353,10 +353,17 @@ impl Harness {
             store(&mut self.cpu, si)[ix] = old;
         }
         if script_rx.is_some() {
-            // a scripted socket was attached: start over with a clean Cpu
-            let tag = self.tag;
-            *self = Harness::new();
-            self.set_tag(tag);
+            if ops.iter().any(|o| o.starts_with("run") || o.starts_with("load")) {
+                // run() / load() went through a scripted socket: start over with a clean Cpu
+                let tag = self.tag;
+                *self = Harness::new();
+                self.set_tag(tag);
+            } else {
+                // single operations only: detaching the socket is enough (much cheaper than a new Cpu)
+                let (tx, rx) = std::sync::mpsc::channel();
+                self.cpu.verif_detach_socket(tx);
+                self.msg_rx = rx;
+            }
         }
     }
 }
